@@ -62,6 +62,29 @@ pub enum Plain {
     },
 }
 
+/// nested subcommand enum (`remote add ..`) next to a flattened enum: `has_subcommand` must know "remote" by
+/// name and delegate only for the flattened variant.
+#[derive(Subcommand, Debug)]
+pub enum Top {
+    #[command(subcommand)]
+    Remote(RemoteCmd),
+    Status,
+    #[command(flatten)]
+    More(Plain),
+}
+
+#[derive(Subcommand, Debug)]
+pub enum RemoteCmd {
+    Add { name: String },
+    Prune,
+}
+
+#[derive(Parser, Debug)]
+pub struct TopCli {
+    #[command(subcommand)]
+    pub cmd: Option<Top>,
+}
+
 #[derive(Args, Debug)]
 pub struct Flat {
     #[arg(long)]
